@@ -26,6 +26,7 @@ func runC05(c *an.Ctx) {
 	r05d(c)
 	r05e(c)
 	r05f(c)
+	r05g(c)
 }
 
 // R05a: verdict finality in constraint.Attributes.Satisfy.
@@ -703,4 +704,66 @@ func r05eRole(c *an.Ctx) {
 		c.Ob("core/workflow.(*roleBase).getConstraints|MergeParent", ci.Pos(), own && par,
 			"the role's own constraints must be the receiver and the parent role's the argument (own-as-receiver=%v parent-as-argument=%v)", own, par)
 	}
+}
+
+// R05g: the resource demands computed for a descriptor come from that descriptor. One dynamic port is requested
+// per inbound TCP channel of the role's bind list merged with the class's; a Wants object obtained in any
+// other way (remembered from another descriptor of the same class, say) asks for another role's ports.
+func r05g(c *an.Ctx) {
+	c.Rule("R05g", "GetWantsForDescriptor: every Wants it returns is computed from the descriptor's own bind list", 1)
+	fn := c.MustFn("core/task", "Manager.GetWantsForDescriptor")
+	if fn == nil {
+		return
+	}
+	c.Subject()
+	var resolve func(v ssa.Value, depth int) []ssa.Value
+	resolve = func(v ssa.Value, depth int) []ssa.Value {
+		if depth > 5 {
+			return []ssa.Value{v}
+		}
+		switch x := v.(type) {
+		case *ssa.Phi:
+			var out []ssa.Value
+			for _, e := range x.Edges {
+				out = append(out, resolve(e, depth+1)...)
+			}
+			return out
+		case *ssa.UnOp:
+			if al, ok := x.X.(*ssa.Alloc); ok && x.Op == token.MUL {
+				if _, isPtr := al.Type().Underlying().(*types.Pointer).Elem().Underlying().(*types.Pointer); isPtr {
+					var out []ssa.Value
+					for _, st := range an.ReachingStores(x) {
+						out = append(out, resolve(st.Val, depth+1)...)
+					}
+					return out
+				}
+			}
+		}
+		return []ssa.Value{v}
+	}
+	var bad []string
+	n := 0
+	for _, r := range an.Returns(fn) {
+		if len(r.Results) == 0 {
+			continue
+		}
+		for _, v := range resolve(r.Results[0], 0) {
+			if an.IsNilConst(v) {
+				continue
+			}
+			n++
+			has := false
+			for _, l := range an.BackSlice(v, an.SliceOpts{}) {
+				if l.Kind == "field" && strings.HasSuffix(l.Path, "Descriptor.RoleBind") {
+					has = true
+				}
+			}
+			if !has {
+				bad = append(bad, c.PosStr(lastPos(r.Block())))
+			}
+		}
+	}
+	sort.Strings(bad)
+	c.Ob("(*core/task.Manager).GetWantsForDescriptor|wants-from-this-descriptor", fn.Pos(), len(bad) == 0 && n > 0,
+		"a Wants returned at %v is not computed from the descriptor's RoleBind (%d returned values examined): the inbound channels - and with them the number of dynamic ports asked of the offer and allocated - are those of whichever descriptor was seen first", bad, n)
 }
